@@ -17,8 +17,10 @@ SubDef == << [n |-> "si", kind |-> "i", lo |-> 0,      hi |-> 50, def |-> 7],
              [n |-> "st", kind |-> "T", lo |-> 0,      hi |-> 0,  def |-> FALSE] >>
 SubDefault == [null |-> FALSE, si |-> 7, sf |-> 6, st |-> FALSE, sa |-> <<4, 4>>]
 NullSub == [null |-> TRUE]
+FxDefault == [null |-> FALSE, gain |-> 3, voice |-> << [vol |-> 64], [vol |-> 64] >>]
 Default == [pc |-> 64, pi |-> 5, pn |-> 0, pf |-> 2, pg |-> 4, pt |-> FALSE, po |-> 1, ps |-> <<97, 98, 99>>, preset |-> 0, dep |-> 10, mode |-> 0, dep2 |-> 1, chain |-> 0, tg |-> FALSE, dep3 |-> 5,
-            ai |-> <<3, 3, 3>>, af |-> <<1, 1, 1>>, at |-> <<FALSE, FALSE>>, sub_on |-> TRUE, sub |-> SubDefault,
+            ai |-> <<3, 3, 3>>, af |-> <<1, 1, 1>>, at |-> <<FALSE, FALSE>>, al |-> <<0, 0, 0, 0, 0, 0, 0, 0>>,
+            fx_on |-> FALSE, fx |-> [null |-> TRUE], sub_on |-> TRUE, sub |-> SubDefault,
             subs |-> <<SubDefault, SubDefault>>, palloc |-> FALSE, psub |-> NullSub]
 PresetDefault(p) == CASE p = 0 -> 10 [] p = 1 -> 20 [] OTHER -> 30
 PresetDefault2(p) == CASE p = 0 -> 1 [] p = 1 -> 2 [] OTHER -> 3
@@ -39,23 +41,30 @@ Param(addr) ==
     [] addr = "/ai0" -> Elem("ai", 1, "I", 0, 100) [] addr = "/ai1" -> Elem("ai", 2, "I", 0, 100) [] addr = "/ai2" -> Elem("ai", 3, "I", 0, 100)
     [] addr = "/af0" -> Elem("af", 1, "f", 0 - 2, 3) [] addr = "/af1" -> Elem("af", 2, "f", 0 - 2, 3) [] addr = "/af2" -> Elem("af", 3, "f", 0 - 2, 3)
     [] addr = "/at0" -> Elem("at", 1, "T", 0, 0) [] addr = "/at1" -> Elem("at", 2, "T", 0, 0)
+    [] addr = "/al0" -> Elem("al", 1, "I", 0, 100) [] addr = "/al1" -> Elem("al", 2, "I", 0, 100) [] addr = "/al2" -> Elem("al", 3, "I", 0, 100) [] addr = "/al3" -> Elem("al", 4, "I", 0, 100)
+    [] addr = "/al4" -> Elem("al", 5, "I", 0, 100) [] addr = "/al5" -> Elem("al", 6, "I", 0, 100) [] addr = "/al6" -> Elem("al", 7, "I", 0, 100) [] addr = "/al7" -> Elem("al", 8, "I", 0, 100)
+    [] addr = "/fx_on" -> Scalar("fx_on", "T", 0, 0) [] addr = "/fx/gain" -> [where |-> "fx", f |-> "gain", i |-> 0, j |-> 0, kind |-> "i", lo |-> 0, hi |-> 10]
+    [] addr = "/fx/voice0/vol" -> [where |-> "fxv", f |-> "vol", i |-> 1, j |-> 0, kind |-> "i", lo |-> 0, hi |-> 127]
+    [] addr = "/fx/voice1/vol" -> [where |-> "fxv", f |-> "vol", i |-> 2, j |-> 0, kind |-> "i", lo |-> 0, hi |-> 127]
     [] addr = "/sub/si" -> InSub("sub", 0, SubDef[1]) [] addr = "/sub/sf" -> InSub("sub", 0, SubDef[2]) [] addr = "/sub/st" -> InSub("sub", 0, SubDef[3])
     [] addr = "/subs0/si" -> InSub("subs", 1, SubDef[1]) [] addr = "/subs0/sf" -> InSub("subs", 1, SubDef[2]) [] addr = "/subs0/st" -> InSub("subs", 1, SubDef[3])
     [] addr = "/subs1/si" -> InSub("subs", 2, SubDef[1]) [] addr = "/subs1/sf" -> InSub("subs", 2, SubDef[2]) [] addr = "/subs1/st" -> InSub("subs", 2, SubDef[3])
     [] addr = "/psub/si" -> InSub("psub", 0, SubDef[1]) [] addr = "/psub/sf" -> InSub("psub", 0, SubDef[2]) [] addr = "/psub/st" -> InSub("psub", 0, SubDef[3])
     [] addr = "/sub/sa0" -> SubElem("sub", 0, 1) [] addr = "/sub/sa1" -> SubElem("sub", 0, 2) [] addr = "/subs0/sa0" -> SubElem("subs", 1, 1) [] addr = "/subs0/sa1" -> SubElem("subs", 1, 2)
     [] addr = "/subs1/sa0" -> SubElem("subs", 2, 1) [] addr = "/subs1/sa1" -> SubElem("subs", 2, 2) [] addr = "/psub/sa0" -> SubElem("psub", 0, 1) [] addr = "/psub/sa1" -> SubElem("psub", 0, 2)
-Addresses == << "/pc", "/pi", "/pn", "/pf", "/pg", "/pt", "/po", "/ps", "/preset", "/dep", "/mode", "/dep2", "/chain", "/tg", "/dep3", "/ai0", "/ai1", "/ai2", "/af0", "/af1", "/af2", "/at0", "/at1",
+Addresses == << "/pc", "/pi", "/pn", "/pf", "/pg", "/pt", "/po", "/ps", "/preset", "/dep", "/mode", "/dep2", "/chain", "/tg", "/dep3", "/ai0", "/ai1", "/ai2", "/af0", "/af1", "/af2", "/at0", "/at1", "/al0", "/al1", "/al2", "/al3", "/al4", "/al5", "/al6", "/al7", "/fx_on", "/fx/gain", "/fx/voice0/vol", "/fx/voice1/vol",
                 "/sub_on", "/sub/si", "/sub/sf", "/sub/st", "/subs0/si", "/subs0/sf", "/subs0/st", "/subs1/si", "/subs1/sf", "/subs1/st",
                 "/palloc", "/psub/si", "/psub/sf", "/psub/st",
                 "/sub/sa0", "/sub/sa1", "/subs0/sa0", "/subs0/sa1", "/subs1/sa0", "/subs1/sa1", "/psub/sa0", "/psub/sa1" >>
 \* ------------------------------------------------------------------ state access
-Exists(s, p) == p.where # "psub" \/ ~ s.psub.null                 \* the pointer sub-tree exists only while allocated
+Exists(s, p) == IF p.where = "psub" THEN ~ s.psub.null ELSE IF p.where \in {"fx", "fxv"} THEN ~ s.fx.null ELSE TRUE                 \* the pointer sub-tree exists only while allocated
 GetV(s, p) == CASE p.where = "top" -> s[p.f] [] p.where = "arr" -> s[p.f][p.i]
+                [] p.where = "fx" -> s.fx[p.f] [] p.where = "fxv" -> s.fx.voice[p.i][p.f]
                 [] p.where = "sub" -> (IF p.j = 0 THEN s.sub[p.f] ELSE s.sub[p.f][p.j])
                 [] p.where = "subs" -> (IF p.j = 0 THEN s.subs[p.i][p.f] ELSE s.subs[p.i][p.f][p.j])
                 [] p.where = "psub" -> (IF p.j = 0 THEN s.psub[p.f] ELSE s.psub[p.f][p.j])
 PutV(s, p, v) == CASE p.where = "top" -> [s EXCEPT ![p.f] = v] [] p.where = "arr" -> [s EXCEPT ![p.f][p.i] = v]
+                   [] p.where = "fx" -> [s EXCEPT !.fx[p.f] = v] [] p.where = "fxv" -> [s EXCEPT !.fx.voice[p.i][p.f] = v]
                    [] p.where = "sub" -> (IF p.j = 0 THEN [s EXCEPT !.sub[p.f] = v] ELSE [s EXCEPT !.sub[p.f][p.j] = v])
                    [] p.where = "subs" -> (IF p.j = 0 THEN [s EXCEPT !.subs[p.i][p.f] = v] ELSE [s EXCEPT !.subs[p.i][p.f][p.j] = v])
                    [] p.where = "psub" -> (IF p.j = 0 THEN [s EXCEPT !.psub[p.f] = v] ELSE [s EXCEPT !.psub[p.f][p.j] = v])
@@ -78,6 +87,7 @@ After(s, addr, changed) ==
   IF addr = "/preset" THEN [s EXCEPT !.dep = PresetDefault(s.preset), !.mode = 0, !.dep2 = PresetDefault2(s.preset), !.chain = 0, !.dep3 = PresetDefault3(s.preset)]   \* a preset message re-initialises its dependants and the mode
   ELSE IF addr = "/tg" THEN [s EXCEPT !.dep3 = PresetDefault3(s.preset)]
   ELSE IF addr = "/mode" THEN [s EXCEPT !.dep2 = PresetDefault2(s.preset), !.chain = 0]                                               \* a mode message re-initialises ITS dependants
+  ELSE IF addr = "/fx_on" /\ changed THEN [s EXCEPT !.fx = IF s.fx_on THEN FxDefault ELSE NullSub]
   ELSE IF addr = "/palloc" /\ changed THEN [s EXCEPT !.psub = IF s.palloc THEN SubDefault ELSE NullSub]
   ELSE s
 SetState(s, addr, ty, v) == LET p == Param(addr) IN
@@ -87,9 +97,9 @@ Numeric(p) == p.kind \in {"c", "i", "I", "f", "o"}
 EvType(p) == CASE p.kind = "c" -> "c" [] p.kind \in {"i", "I", "o"} -> "i" [] p.kind = "f" -> "f" [] p.kind = "s" -> "s" [] OTHER -> "T"
 \* ------------------------------------------------------------------ savefile (C12)
 \* reachable: not below a disabled or null sub-tree
-Reachable(s, p) == CASE p.where = "sub" -> s.sub_on [] p.where = "psub" -> s.palloc /\ ~ s.psub.null [] OTHER -> TRUE
+Reachable(s, p) == CASE p.where \in {"fx", "fxv"} -> s.fx_on /\ ~ s.fx.null [] p.where = "sub" -> s.sub_on [] p.where = "psub" -> s.palloc /\ ~ s.psub.null [] OTHER -> TRUE
 DefaultOf(s, addr) == LET p == Param(addr) IN
-  IF addr = "/dep" THEN PresetDefault(s.preset) ELSE IF addr = "/dep2" THEN PresetDefault2(s.preset) ELSE IF addr = "/dep3" THEN PresetDefault3(s.preset) ELSE GetV(IF p.where = "psub" THEN [Default EXCEPT !.psub = SubDefault] ELSE Default, p)
+  IF addr = "/dep" THEN PresetDefault(s.preset) ELSE IF addr = "/dep2" THEN PresetDefault2(s.preset) ELSE IF addr = "/dep3" THEN PresetDefault3(s.preset) ELSE GetV(IF p.where = "psub" THEN [Default EXCEPT !.psub = SubDefault] ELSE IF p.where \in {"fx", "fxv"} THEN [Default EXCEPT !.fx = FxDefault] ELSE Default, p)
 \* value as it appears in a savefile line: options by name, everything else as stored
 FileVal(p, v) == IF p.kind = "o" THEN [sym |-> OptionNames[v + 1]] ELSE v
 ScalarAddrs == SelectSeq(Addresses, LAMBDA a : Param(a).where # "arr" /\ Param(a).j = 0)
@@ -97,25 +107,25 @@ ScalarLines(s) == { [addr |-> a, vals |-> <<FileVal(Param(a), GetV(s, Param(a)))
                       a \in { ScalarAddrs[i] : i \in { j \in 1..Len(ScalarAddrs) : Reachable(s, Param(ScalarAddrs[j])) /\ GetV(s, Param(ScalarAddrs[j])) # DefaultOf(s, ScalarAddrs[j]) } } }
 \* an array is one line with its elements up to the last one that differs from the default
 LastDiff(cur, def) == IF \E i \in 1..Len(cur) : cur[i] # def[i] THEN CHOOSE i \in 1..Len(cur) : cur[i] # def[i] /\ \A j \in (i + 1)..Len(cur) : cur[j] = def[j] ELSE 0
-ArrayLines(s) == { [addr |-> "/" \o f, vals |-> << SubSeq(s[f], 1, LastDiff(s[f], Default[f])) >>] : f \in { g \in {"ai", "af", "at"} : LastDiff(s[g], Default[g]) > 0 } }
+ArrayLines(s) == { [addr |-> "/" \o f, vals |-> << SubSeq(s[f], 1, LastDiff(s[f], Default[f])) >>] : f \in { g \in {"ai", "af", "at", "al"} : LastDiff(s[g], Default[g]) > 0 } }
 \* the arrays inside the sub-trees that can be reached
 SubOf(s, c) == CASE c = "/sub" -> s.sub [] c = "/subs0" -> s.subs[1] [] c = "/subs1" -> s.subs[2] [] OTHER -> s.psub
 SubReachable(s, c) == CASE c = "/sub" -> s.sub_on [] c = "/psub" -> s.palloc /\ ~ s.psub.null [] OTHER -> TRUE
 SubArrayLines(s) == { [addr |-> c \o "/sa", vals |-> << SubSeq(SubOf(s, c).sa, 1, LastDiff(SubOf(s, c).sa, SubDefault.sa)) >>] :
                         c \in { d \in {"/sub", "/subs0", "/subs1", "/psub"} : SubReachable(s, d) /\ LastDiff(SubOf(s, d).sa, SubDefault.sa) > 0 } }
 SaveLines(s) == ScalarLines(s) \cup ArrayLines(s) \cup SubArrayLines(s)
-ArrayLineAddrs == {"/ai", "/af", "/at", "/sub/sa", "/subs0/sa", "/subs1/sa", "/psub/sa"}
+ArrayLineAddrs == {"/ai", "/af", "/at", "/al", "/sub/sa", "/subs0/sa", "/subs1/sa", "/psub/sa"}
 \* ------------------------------------------------------------------ loading (C12, C13)
 \* the messages a line stands for (an array line is one message per element)
 LineMsgs(ln) == IF ln.addr \in ArrayLineAddrs
-                THEN [i \in 1..Len(ln.vals[1]) |-> [addr |-> ln.addr \o (CASE i = 1 -> "0" [] i = 2 -> "1" [] OTHER -> "2"), v |-> ln.vals[1][i]]]
+                THEN [i \in 1..Len(ln.vals[1]) |-> [addr |-> ln.addr \o << "0", "1", "2", "3", "4", "5", "6", "7" >>[i], v |-> ln.vals[1][i]]]
                 ELSE << [addr |-> ln.addr, v |-> ln.vals[1]] >>
 MsgTy(p, v) == CASE p.kind = "T" -> IF v THEN "T" ELSE "F" [] p.kind = "o" -> "S" [] p.kind = "I" -> "i" [] OTHER -> p.kind
 ApplyMsg(s, m) == LET p == Param(m.addr) IN SetState(s, m.addr, MsgTy(p, m.v), IF p.kind = "o" THEN m.v.sym ELSE m.v)
 RECURSIVE ApplyAll(_, _)
 ApplyAll(s, ms) == IF ms = <<>> THEN s ELSE ApplyAll(ApplyMsg(s, Head(ms)), Tail(ms))
 \* a port that another port's default, enablement or declared dependency refers to comes first
-Rank(addr) == IF addr \in {"/preset", "/sub_on", "/palloc", "/tg"} THEN 0 ELSE IF addr = "/mode" THEN 1 ELSE 2
+Rank(addr) == IF addr \in {"/preset", "/sub_on", "/palloc", "/tg", "/fx_on"} THEN 0 ELSE IF addr = "/mode" THEN 1 ELSE 2
 RECURSIVE Concat(_)
 Concat(ss) == IF ss = <<>> THEN <<>> ELSE Head(ss) \o Concat(Tail(ss))
 RECURSIVE SetToSeq(_)
